@@ -10,7 +10,7 @@
    `log_of c evs` are the messages delivered on channel c; `submitted W c` those submitted on c. *)
 From Coq Require Import ZArith List Bool.
 From RV Require Import Lib.Wrap Gen.Consts Gen.Sctp Model.SctpRecv
-     Proofs.SctpRecvBase Proofs.SctpRecvRefine Proofs.SctpSendSpec Proofs.SctpTheorems.
+     Proofs.SctpRecvBase Proofs.SctpRecvRefine Proofs.SctpSendSpec Proofs.SctpTheorems Proofs.SctpWrapWitness.
 Import ListNotations.
 Open Scope Z_scope.
 
@@ -103,6 +103,16 @@ Theorem C01_setup_replay_refuted :
     (forall c, In c (chunks sc W t0) -> In (IData c) h) /\
     exists c, find_chan c rc <> None /\ log_of c (snd (run (init_r 0 rc) h)) <> submitted W c.
 Proof. exact setup_replay_refuted. Qed.
+
+(* ... and the same replay also breaks SAFETY on an ordered channel once the SSN wraps: the old
+   copy of message 0, parked in InboundStream.pending by the replay, is delivered a second time
+   after message 65535, and message 65536 never (65 537 messages; checked by vm_compute). *)
+Theorem C01_setup_replay_safety_refuted :
+  exists sc W t0 rc h,
+    Z.of_nat (length (chunks sc W t0)) < 2147483648 /\ wf_workload sc W /\
+    Forall (genuine_input (chunks sc W t0)) h /\
+    exists c, ~ exists n, log_of c (snd (run (init_r 0 rc) h)) = firstn n (submitted W c).
+Proof. exact setup_replay_safety_refuted. Qed.
 
 (* In-order processing of any prefix of the sender's stream logs a prefix of the submissions. *)
 Theorem C01_in_order_prefix : forall sc W ssns a k c,
